@@ -169,7 +169,14 @@ Inductive expr :=
 | EStartsWith (e p : expr)                     (* e.startswith(p) *)
 | EIsClass (e : expr)                          (* isinstance(e, type) *)
 | EUsesMixin (e : expr)                        (* issubclass(e, GenericMixin) *)
-| EClassAttrIsProperty (e n : expr).           (* isinstance(getattr(type(e), n, None), property) *)
+| EClassAttrIsProperty (e n : expr)            (* isinstance(getattr(type(e), n, None), property) *)
+| ETupleEmpty                                  (* () *)
+| ETuple2 (a b : expr)                         (* a, b *)
+| EGetAttrD (e : expr) (name : string) (d : expr)   (* getattr(e, 'name', d) *)
+| EDictOf (e : expr)                           (* dict(e), e an iterable of pairs *)
+| EDictGetD (d k dflt : expr)                  (* d.get(k, dflt) *)
+| ETupleComp (x : string) (it elt : expr)      (* tuple(elt for x in it) *)
+| ECall2 (f : string) (a b : expr).            (* call of a translated function with two arguments *)
 
 Inductive stmt :=
 | SSkip
@@ -184,6 +191,7 @@ Inductive stmt :=
 | SAssert (c : expr)                                 (* assert c[, msg] *)
 | SSetAttr (o : string) (n v : expr)                 (* setattr(o, n, v), o a local *)
 | SSetItem2 (d : string) (k1 k2 v : expr)            (* d[k1][k2] = v, d a local *)
+| SAssign2 (x y : string) (e : expr)                 (* x, y = e *)
 | SCallExt (x : string) (f : expr) (args : list expr).   (* x = f(args): f is a callable the model knows nothing about *)
 
 Record fundef := {
@@ -199,6 +207,7 @@ Record fundef := {
 Record cls_rec := {
   c_own_ob : option (list val);   (* `__orig_bases__` in the class's own namespace (set by the class statement iff a base is not a class) *)
   c_mro : list nat;               (* the MRO of the class, beginning with the class itself *)
+  c_params : list val;            (* `__parameters__`: the type parameters typing computed for the class *)
 }.
 
 (* what getattr(self, name) does: a plain attribute / a descriptor that raises / a property (what its getter does) *)
@@ -229,6 +238,10 @@ Fixpoint first_ob (w : world) (mro : list nat) : option (list val) :=
    Generic - is not a subclass of it) *)
 Definition uses_mixin (w : world) (c : nat) : bool :=
   match find_cls c (w_classes w) with Some r => existsb (Nat.eqb (w_mixin w)) (c_mro r) | None => false end.
+
+(* C.__parameters__ (a class the world does not list has none: AttributeError) *)
+Definition class_params (w : world) (c : nat) : option (list val) :=
+  match find_cls c (w_classes w) with Some r => Some (c_params r) | None => None end.
 
 (* the value of the attribute lookup C.__orig_bases__ (None: AttributeError) *)
 Definition lookup_ob (w : world) (c : nat) : option (list val) :=
@@ -320,6 +333,8 @@ Section Interp.
     | VCls c =>
         if String.eqb name "__orig_bases__" then
           of_opt (match lookup_ob w c with Some l => Some (VTuple l) | None => None end)
+        else if String.eqb name "__parameters__" then
+          of_opt (match class_params w c with Some l => Some (VTuple l) | None => None end)
         else Raise AttributeErrorC
     | VAlias o args =>
         if String.eqb name "__origin__" then Ok o
@@ -417,6 +432,26 @@ Section Interp.
                   | VGeneric | VEnumCls _ => Ok (VBool false)
                   | _ => Raise TypeErrorC          (* issubclass() arg 1 must be a class *)
                   end)
+    | ETupleEmpty => Ok (VTuple [])
+    | ETuple2 a b => bind (eval a en) (fun x => bind (eval b en) (fun y => Ok (VTuple [x; y])))
+    | EGetAttrD a name d => bind (eval a en) (fun v =>
+                  match get_attr v name with
+                  | Ok x => Ok x
+                  | Raise ex => if derives ex AttributeErrorC then eval d en else Raise ex
+                  end)
+    | EDictOf a => bind (eval a en) (fun v => bind (iter_items v) (fun items =>
+                  bind (comp_dict (fun i => match i with VTuple [k; x] => Ok (k, x) | _ => Raise TypeErrorC end) items [])
+                       (fun d => Ok (VDict d))))
+    | EDictGetD d k dflt => bind (eval d en) (fun dv => bind (eval k en) (fun kv => bind (eval dflt en) (fun fv =>
+                  match dv with
+                  | VDict l => Ok (match dict_get kv l with Some x => x | None => fv end)
+                  | _ => Raise AttributeErrorC
+                  end)))
+    | ETupleComp x it el =>
+        bind (eval it en) (fun iv => bind (iter_items iv) (fun items =>
+          bind (comp_list (fun _ => Ok (VBool true)) (fun i => eval el ((x, Some i) :: en)) items)
+               (fun l => Ok (VTuple l))))
+    | ECall2 f a b => bind (eval a en) (fun x => bind (eval b en) (fun y => call f [x; y]))
     | EClassAttrIsProperty a n => bind (eval a en) (fun v => bind (eval n en) (fun nv =>
                   match v, nv with
                   | VInst _ _, VStr name =>
@@ -497,6 +532,12 @@ Section Interp.
             end
           | Ok _ => RRaise TypeErrorC j
           end
+        end
+    | SAssign2 x y e =>
+        match eval e en with
+        | Ok (VTuple [a; b]) => RNormal (env_upd y b (env_upd x a en)) j
+        | Ok _ => RRaise TypeErrorC j
+        | Raise ex => RRaise ex j
         end
     | SCallExt x f args =>
         match eval f en with
